@@ -83,7 +83,8 @@ PROPS["C07"] = {
 PROPS["C04"] = {
     "module": "PropC04",
     "theorems": ["C04_threshold", "C04_coherence_range", "C04_percents", "C04_f32_not_ge_lt",
-                 "C04_threshold_binary32", "C04_coherence_range_binary32", "C04_float_laws_hold_for_binary32"],
+                 "C04_threshold_binary32", "C04_coherence_range_binary32", "C04_float_laws_hold_for_binary32",
+                 "C04_valid_utf8_yields_match"],
     "runs": [detect_run("C04", 300, 5000, bigq=1, bigt=8)],
     "search": detect_search("C04"),
     "rule": DETECT_RULE + "; thresholds drawn from {0, 0.01, 0.02, 0.05, 0.1, 0.2, 0.3, 0.5, 0.8, 1} and their binary32 neighbours, "
